@@ -34,9 +34,9 @@ removal (fails exactly in the situation of D9b) -/
 def NoLeak (x : Cache) : Prop :=
   ∀ f ∈ x.created, some f ∈ x.pending ∨ ∃ r ∈ x.rows, r.file = some f
 
-/-- no row refers to a file scheduled for removal.  (True on every state the model reaches —
-file numbers are never reused — but not carried by the block invariant proved here, hence a
-hypothesis; decidable on concrete states.) -/
+/-- no row refers to a file scheduled for removal.  Now part of the block invariant
+(`block_pendRef`: file numbers pending removal are below the allocation counter, so the next file
+written is never one of them); no longer a hypothesis of any theorem. -/
 def PendRef (x : Cache) : Prop :=
   ∀ r ∈ x.rows, ∀ f, r.file = some f → some f ∉ x.pending
 
@@ -105,11 +105,14 @@ theorem tbegin_eq {s : Cache} (hd : s.depth = 0) :
   unfold tbegin; rw [if_pos (by simp [hd])]
 
 theorem tbegin_BI {s : Cache} (hg : Good s) : BI s.tbegin := by
-  refine ⟨[], ?_, fun f hf => by cases hf⟩
-  have : fcore s.tbegin = core s := by
-    rw [tbegin_eq hg.depth]
-    simp only [fcore, qz, core, log, hg.depth, hg.snap, hg.pending, hg.created]
-  rw [this]; exact hg.pi
+  refine ⟨[], ?_, ⟨(fun f hf => by cases hf), ?_⟩⟩
+  · have : fcore s.tbegin = core s := by
+      rw [tbegin_eq hg.depth]
+      simp only [fcore, qz, core, log, hg.depth, hg.snap, hg.pending, hg.created]
+    rw [this]; exact hg.pi
+  · intro f hf
+    rw [tbegin_eq hg.depth] at hf
+    cases hf
 
 /-- the state at the end of a flat block of covered calls: the facts used below -/
 theorem block_end {s : Cache} (hg : Good s) (ops : List Op) (hin : ∀ op ∈ ops, op.inBlock = true) :
@@ -120,11 +123,19 @@ theorem block_end {s : Cache} (hg : Good s) (ops : List Op) (hin : ∀ op ∈ op
   have h := run_blk (Blk.refl hd) ops (fun op ho => Op.inBlock_flat (hin op ho))
   exact ⟨run_BI hd ops hin (tbegin_BI hg), h, by rw [h.depth, hb], by rw [h.snap, hb]⟩
 
-/-- a flat block that COMMITS keeps `Good`, if nothing leaked (`NoLeak`) -/
-theorem block_commit_good_partial (s : Cache) (hg : Good s) (ops : List Op)
+/-- at the end of a flat block of covered calls no row refers to a file pending removal -/
+theorem block_pendRef (s : Cache) (hg : Good s) (ops : List Op) (hin : ∀ op ∈ ops, op.inBlock = true) :
+    PendRef (s.tbegin.run ops) := by
+  obtain ⟨⟨cl, hP, hS⟩, -, -, -⟩ := block_end hg ops hin
+  intro r hr f hf hp
+  exact (hP.ref r hr f hf).1 (hS.pend f hp).1
+
+/-- a flat block that COMMITS keeps `Good`, if nothing leaked (`NoLeak`, necessary: D9b) -/
+theorem block_commit_good (s : Cache) (hg : Good s) (ops : List Op)
     (hin : ∀ op ∈ ops, op.inBlock = true)
-    (hnl : NoLeak (s.tbegin.run ops)) (hpr : PendRef (s.tbegin.run ops)) :
+    (hnl : NoLeak (s.tbegin.run ops)) :
     Good (s.tbegin.run ops).tend := by
+  have hpr := block_pendRef s hg ops hin
   obtain ⟨⟨cl, hP, hS⟩, -, hd1, -⟩ := block_end hg ops hin
   have hti : TableInv (s.tbegin.run ops).tend := tend_inv _ (run_inv _ ops (tbegin_inv _ hg.tinv))
   generalize s.tbegin.run ops = x at *
@@ -150,7 +161,7 @@ theorem block_commit_good_partial (s : Cache) (hg : Good s) (ops : List Op)
     have hnp : some p.1 ∉ x.pending := by simpa using hp2
     rcases hP.orphan p hp1 with h1 | h1
     · exact .inl h1
-    · rcases hS p.1 h1 with h2 | h2
+    · rcases hS.inn p.1 h1 with h2 | h2
       · exact absurd h2 hnp
       · rcases hnl p.1 h2 with h3 | h3
         · exact absurd h3 hnp
@@ -234,11 +245,24 @@ theorem block_abort_clean (s : Cache) (hg : Good s) (ops : List Op)
 
 /-! ### the check model on the state after a block -/
 
+/-- C08 after a committed flat block: the only side condition is `NoLeak` -/
+theorem block_commit_check_quiet (s : Cache) (hg : Good s) (ops : List Op)
+    (hin : ∀ op ∈ ops, op.inBlock = true)
+    (hnl : NoLeak (s.tbegin.run ops))
+    (st : St) (ho : Observes (s.tbegin.run ops).tend st) : CheckQuiet st :=
+  good_check_quiet _ st (block_commit_good s hg ops hin hnl) ho
+
+/-- the earlier statements, with the hypothesis `PendRef` that is no longer needed -/
+theorem block_commit_good_partial (s : Cache) (hg : Good s) (ops : List Op)
+    (hin : ∀ op ∈ ops, op.inBlock = true)
+    (hnl : NoLeak (s.tbegin.run ops)) (_hpr : PendRef (s.tbegin.run ops)) :
+    Good (s.tbegin.run ops).tend := block_commit_good s hg ops hin hnl
+
 theorem block_commit_check_quiet_partial (s : Cache) (hg : Good s) (ops : List Op)
     (hin : ∀ op ∈ ops, op.inBlock = true)
-    (hnl : NoLeak (s.tbegin.run ops)) (hpr : PendRef (s.tbegin.run ops))
+    (hnl : NoLeak (s.tbegin.run ops)) (_hpr : PendRef (s.tbegin.run ops))
     (st : St) (ho : Observes (s.tbegin.run ops).tend st) : CheckQuiet st :=
-  good_check_quiet _ st (block_commit_good_partial s hg ops hin hnl hpr) ho
+  block_commit_check_quiet s hg ops hin hnl st ho
 
 theorem block_abort_check_quiet (s : Cache) (hg : Good s) (ops : List Op)
     (hin : ∀ op ∈ ops, op.inBlock = true) (n : Nat) (hn : 1 ≤ n)
@@ -270,7 +294,7 @@ def Seg.ops : Seg → List Op
 /-- the side condition of a segment that starts in state `c` -/
 def Seg.ok (c : Cache) : Seg → Prop
   | .call op => op.opens = false
-  | .commit ops => (∀ op ∈ ops, op.inBlock = true) ∧ NoLeak (c.tbegin.run ops) ∧ PendRef (c.tbegin.run ops)
+  | .commit ops => (∀ op ∈ ops, op.inBlock = true) ∧ NoLeak (c.tbegin.run ops)
   | .abort ops n => (∀ op ∈ ops, op.inBlock = true) ∧ 1 ≤ n ∧ Registered c (c.tbegin.run ops)
 
 /-- all segments are fine, each judged in the state it starts in -/
@@ -287,13 +311,13 @@ theorem seg_good (c : Cache) (hg : Good c) (g : Seg) (hok : g.ok c) : Good (c.ru
   cases g with
   | call op => exact step_good_unopened c op hok hg
   | commit ops =>
-    obtain ⟨h1, h2, h3⟩ := hok
+    obtain ⟨h1, h2⟩ := hok
     show Good (c.run (Op.tbegin :: ops ++ [Op.tend]))
     have : c.run (Op.tbegin :: ops ++ [Op.tend]) = (c.tbegin.run ops).tend := by
       show (c.tbegin).run (ops ++ [Op.tend]) = _
       rw [run_append]; rfl
     rw [this]
-    exact block_commit_good_partial c hg ops h1 h2 h3
+    exact block_commit_good c hg ops h1 h2
   | abort ops n =>
     obtain ⟨h1, h2, h3⟩ := hok
     have : c.run (Op.tbegin :: ops ++ [Op.traise n]) = (c.tbegin.run ops).traise n := by
@@ -339,9 +363,8 @@ def exSegs : List Seg :=
    .call (.touch exE6 3 (.str [97]) (some 10))]
 
 theorem exSegs_quiet : QuietHist ({ cfg := exCfg } : Cache) exSegs := by
-  refine ⟨rfl, rfl, ⟨by decide, ?_, ?_⟩, ⟨by decide, by decide, ?_⟩, rfl, trivial⟩
+  refine ⟨rfl, rfl, ⟨by decide, ?_⟩, ⟨by decide, by decide, ?_⟩, rfl, trivial⟩
   · unfold NoLeak; decide +kernel
-  · unfold PendRef; decide +kernel
   · unfold Registered; decide +kernel
 
 
